@@ -648,7 +648,7 @@ def c20(proj, rep, tier):
     rep.floor('G5 (basis, complement) return pairs', n, 7)
     round3b.evs1(proj, rep, ['numqi.matrix_space'] if tier == 'quick' else None)
     nn = round3b.td1_dt14_drop1_rd2(proj, rep, ['DROP1'])
-    rep.floor('DROP1 accumulating loops of numqi.matrix_space', nn['DROP1'], 10)
+    rep.floor('DROP1 accumulating loops of the hierarchy certificate routines', nn['DROP1'], 3)
     n = kdefects.nz1(proj, rep, ['numqi.matrix_space._misc', 'numqi.matrix_space._numerical_range', 'numqi.matrix_space._hierarchy'] if tier == 'quick' else sorted(proj.modules))
     n = kdefects.k5(proj, rep, ['numqi.matrix_space._numerical_range'])
     rep.floor('K5 eigsh calls in the numerical-range routines', n, 4)
